@@ -20,7 +20,7 @@
 (*   stop   the spelling is not a program under these flags: the matched   *)
 (*          text ends before it                                            *)
 (***************************************************************************)
-EXTENDS Naturals, Sequences, FiniteSets
+EXTENDS Naturals, Sequences, FiniteSets, TLC
 
 Fam == {"coc", "wod", "fate", "doublecross"}
 
